@@ -459,6 +459,13 @@ def addParentWithoutAdjustingHeights (env : Env) : Nat â†’ Nat â†’ Nat â†’ Nat â
     if !(â† getNode child).valid then
       modify fun s => { s with propagateInvalidity := parent :: s.propagateInvalidity }
     if !wasNecessary then becameNecessary env fuel child
+    else
+      -- repaired D15: a linked `map_ref` child whose projection change is still pending (it has not been
+      -- recomputed yet): a `map_ref` parent linking only now missed the `child_changed` notification
+      let cn â† getNode child
+      match cn.kind? with
+      | some (.mapRef _ _) => if cn.didChange then markMapRefUnknown fuel parent
+      | _ => pure ()
     match (â† getNode parent).kind? with      -- repaired D7: the parent's kind
     | some (.expert e) => runEdgeCallback env e index
     | _ => pure ()
